@@ -1006,6 +1006,7 @@ def _searchsorted(ex, st, args, kwargs, node):
     st.assume(r >= 0, r <= to_int(n))
     st.assume(c.Forall(0, r, lambda j: lt(a.elem((j,)))))
     st.assume(c.Forall(r, n, lambda j: z3.Not(lt(a.elem((j,))))))
+    c.__dict__.setdefault('ss_results', []).append(r)      # ghost: the results, in call order (witnesses for contracts)
     return r
 
 
